@@ -151,8 +151,8 @@ func (d *intDecoder) decodeStreamByte(s *Stream) ([]byte, error) {
 			if s.char() == nul {
 				s.read()
 			}
-			if isNumberContinuation(s.char()) {
-				return nil, d.typeError([]byte{'0', s.char()}, s.totalOffset())
+			if c := s.char(); c == '.' || c == 'e' || c == 'E' {
+				return nil, d.typeError([]byte{'0', c}, s.totalOffset())
 			}
 			return numZeroBuf, nil
 		case '1', '2', '3', '4', '5', '6', '7', '8', '9':
